@@ -12,8 +12,25 @@ import sys
 import jsonrpclib
 import jsonrpclib.config
 from jsonrpclib import jsonrpc, jsonclass
-from jsonrpclib.SimpleJSONRPCServer import SimpleJSONRPCDispatcher
+from jsonrpclib.SimpleJSONRPCServer import SimpleJSONRPCDispatcher, SimpleJSONRPCServer, PooledJSONRPCServer, CGIJSONRPCRequestHandler
 from harness.values import enc
+from harness.errorcheck_run import Loop
+
+
+class LocalCanary(object):
+    """A class of the configuration's local class table (registered under the very name a descriptor carries)."""
+    def __init__(self, *a, **k):
+        builtins._verif_marks.append('constructed-local')
+
+
+def make_server(kind, cfg):
+    """The object whose _marshaled_dispatch serves the request: every server-side entry point takes a Config."""
+    if kind == "dispatcher":
+        return SimpleJSONRPCDispatcher(config=cfg)
+    if kind == "cgi":
+        return CGIJSONRPCRequestHandler(config=cfg)
+    cls = SimpleJSONRPCServer if kind == "simple" else PooledJSONRPCServer
+    return cls(("127.0.0.1", 0), logRequests=False, config=cfg)
 
 REP = {"letter": "aZqB", "digit": "07", "underscore": "_", "dot": ".", "space": " ", "semicolon": ";", "dash": "-", "slash": "/",
        "newline": "\n", "nul": "\x00", "nonascii_letter": "éя名", "nonascii_digit": "٣２"}
@@ -85,16 +102,26 @@ def run_one(word, dk, rnd, canary=False):
     if rnd.random() < 0.5:
         d["attr"] = 1
     x = embed(d, rnd)
-    rec = {"w": list(word), "dk": dk, "name": name if len(name) < 40 else name[:40], "canary": canary}
+    registered = (not canary) and rnd.random() < 0.3
+    spath = rnd.choice(["dispatcher", "dispatcher", "simple", "pooled", "cgi"])
+    cpath = rnd.choice(["loads", "proxy"])
+    rec = {"w": list(word), "dk": dk, "name": name if len(name) < 40 else name[:40], "canary": canary, "registered": registered,
+           "spath": spath, "cpath": cpath}
     resp_text = json.dumps({"jsonrpc": "2.0", "id": 1, "result": x})
     req_text = json.dumps({"jsonrpc": "2.0", "id": 1, "method": "ok", "params": [x]})
     for on in (True, False):
         cfg = jsonrpclib.config.Config(use_jsonclass=on)
         tag = "on" if on else "off"
-        v, exc, nimp, marks = observe(lambda: jsonrpc.loads(resp_text, cfg))
-        rec["client_" + tag] = {"exc": exc, "imports": nimp, "marks": marks, "plain": exc == "ok" and enc(v) == enc(json.loads(resp_text))}
+        if registered:
+            cfg.classes.add(LocalCanary, name)
+        if cpath == "loads":
+            v, exc, nimp, marks = observe(lambda: jsonrpc.loads(resp_text, cfg))
+            v = v["result"] if exc == "ok" and isinstance(v, dict) and "result" in v else v
+        else:
+            v, exc, nimp, marks = observe(lambda: jsonrpc.ServerProxy("http://loop/", transport=Loop(resp_text), config=cfg).ok())
+        rec["client_" + tag] = {"exc": exc, "imports": nimp, "marks": marks, "plain": exc == "ok" and enc(v) == enc(json.loads(resp_text)["result"])}
         calls = []
-        disp = SimpleJSONRPCDispatcher(config=cfg)
+        disp = make_server(spath, cfg)
 
         def ok(*a):
             calls.append(a)
@@ -110,6 +137,11 @@ def run_one(word, dk, rnd, canary=False):
                 verbatim = enc(r.get("result")) == enc(x) and len(calls) == 1 and enc(calls[0][0]) == enc(x)
         except (TypeError, ValueError):
             code = -1
+        if spath in ("simple", "pooled"):
+            try:
+                disp.server_close()
+            except BaseException:  # noqa
+                pass
         rec["server_" + tag] = {"exc": exc2, "imports": nimp2, "marks": marks2, "code": code if isinstance(code, int) else -2,
                                 "calls": len(calls), "verbatim": verbatim}
     return rec
